@@ -24,20 +24,34 @@
      LegacyHandleClose      when ctx.Done wins the select the subscriber is not closed
                             although the router is closing
      LegacySecondCloseNil   a Close call on an already closed router returns nil at once, also
-                            when the first call timed out and invocations are still running  *)
+                            when the first call timed out and invocations are still running
+     MutUnregBeforeDone     the ending handler goroutine takes handlersLock (to leave the handler map) BEFORE it
+                            reports handlersWg.Done(): Close holds that lock while it waits for the group -- dead-lock
+     MutIsClosedInRunHandlers  RunHandlers asks IsClosed() (closedLock) while it holds handlersLock: lock order inverted
+                            with respect to Close (closedLock, then handlersLock) -- dead-lock
+     MutSkipStoppedWhenClosing  the ending handler goroutine returns early when the router is closing and never
+                            closes Stopped()
+
+   Locks: closedLock (closedMu) and handlersLock (hlMu).  Close takes closedLock, then handlersLock, and keeps both until
+   it returns; RunHandlers holds handlersLock while it subscribes and starts the handlers; the handler goroutine reports
+   handlersWg.Done() first and takes handlersLock afterwards (to leave the map), then closes Stopped().
+   Close calls are made once the router has begun to start its handlers (rh # "lock").                                *)
 EXTENDS Naturals, Sequences, FiniteSets, TLC
 
 CONSTANTS Msgs, Closers, AllowStop, AllowTimeout,
           Watcher,        \* the closer that models watchAllHandlersStopped (calls Close when all handlers ended), or a value outside Closers
           AllowCtxCancel, \* the context given to Run may be cancelled by the user
-          LegacyConcurrentWaits, LegacyStartedFirst, LegacyHandleClose, LegacySecondCloseNil
+          LegacyConcurrentWaits, LegacyStartedFirst, LegacyHandleClose, LegacySecondCloseNil,
+          MutUnregBeforeDone, MutIsClosedInRunHandlers, MutSkipStoppedWhenClosing
 
 VARIABLES srcQ, srcClosed, pump, pumpMsg, loop, loopMsg, hm, runningWg, runningMu, handlersWg,
           hc, run, ctxCancelled, closing, closedCh, closed, closedMu, cl, clerr, w1, w2, tmo,
-          subCloseCalled, pubClosed, rh, startedCh, stopFnSet, user, userStopped, dropped, panicked
+          subCloseCalled, pubClosed, rh, startedCh, stopFnSet, user, userStopped, dropped, panicked,
+          hlMu,        \* holder of handlersLock: None | "rh" | a closer | (the handler goroutine takes and releases it in one step)
+          stoppedCh    \* the handler's Stopped() channel is closed
 vars == <<srcQ, srcClosed, pump, pumpMsg, loop, loopMsg, hm, runningWg, runningMu, handlersWg,
           hc, run, ctxCancelled, closing, closedCh, closed, closedMu, cl, clerr, w1, w2, tmo,
-          subCloseCalled, pubClosed, rh, startedCh, stopFnSet, user, userStopped, dropped, panicked>>
+          subCloseCalled, pubClosed, rh, startedCh, stopFnSet, user, userStopped, dropped, panicked, hlMu, stoppedCh>>
 None == "none"
 
 Init == /\ srcQ = Msgs /\ srcClosed = FALSE /\ pump = "off" /\ pumpMsg = None /\ loop = "off" /\ loopMsg = None
@@ -45,103 +59,118 @@ Init == /\ srcQ = Msgs /\ srcClosed = FALSE /\ pump = "off" /\ pumpMsg = None /\
         /\ hc = "off" /\ run = "start" /\ ctxCancelled = FALSE /\ closing = FALSE /\ closedCh = FALSE
         /\ closed = FALSE /\ closedMu = None /\ cl = [c \in Closers |-> "idle"] /\ clerr = [c \in Closers |-> FALSE]
         /\ w1 = "off" /\ w2 = "off" /\ tmo = FALSE
-        /\ subCloseCalled = FALSE /\ pubClosed = FALSE /\ rh = "subscribe" /\ startedCh = FALSE /\ stopFnSet = FALSE
+        /\ subCloseCalled = FALSE /\ pubClosed = FALSE /\ rh = "lock" /\ startedCh = FALSE /\ stopFnSet = FALSE
+        /\ hlMu = None /\ stoppedCh = FALSE
         /\ user = "wait_started" /\ userStopped = FALSE /\ dropped = {} /\ panicked = FALSE
 U(v) == UNCHANGED v
 
 \* ---- RunHandlers: subscribe, close(startedCh), stopFn/stopped, spawn loop + handleClose
+RHLock == /\ rh = "lock" /\ run = "start" /\ hlMu = None /\ hlMu' = "rh" /\ rh' = "subscribe"
+          /\ U(<<srcQ, srcClosed, pump, pumpMsg, loop, loopMsg, hm, runningWg, runningMu, handlersWg, hc, run, ctxCancelled, closing, closedCh, closed, closedMu, cl, clerr, w1, w2, tmo, subCloseCalled, pubClosed, startedCh, stopFnSet, user, userStopped, dropped, panicked, stoppedCh>>)
 RHSubscribe == /\ rh = "subscribe" /\ run = "start"
+               /\ MutIsClosedInRunHandlers => closedMu = None          \* IsClosed(): closedLock taken and released
                /\ IF LegacyStartedFirst THEN startedCh' = TRUE /\ U(stopFnSet) /\ rh' = "after_started"
                   ELSE stopFnSet' = TRUE /\ startedCh' = TRUE /\ rh' = "spawn"
                /\ pump' = "recv"
-               /\ U(<<srcQ, srcClosed, pumpMsg, loop, loopMsg, hm, runningWg, runningMu, handlersWg, hc, run, ctxCancelled, closing, closedCh, closed, closedMu, cl, clerr, w1, w2, tmo, subCloseCalled, pubClosed, user, userStopped, dropped, panicked>>)
+               /\ U(<<srcQ, srcClosed, pumpMsg, loop, loopMsg, hm, runningWg, runningMu, handlersWg, hc, run, ctxCancelled, closing, closedCh, closed, closedMu, cl, clerr, w1, w2, tmo, subCloseCalled, pubClosed, user, userStopped, dropped, panicked, hlMu, stoppedCh>>)
 RHAfterStarted == /\ rh = "after_started" /\ stopFnSet' = TRUE /\ rh' = "spawn"
-               /\ U(<<srcQ, srcClosed, pump, pumpMsg, loop, loopMsg, hm, runningWg, runningMu, handlersWg, hc, run, ctxCancelled, closing, closedCh, closed, closedMu, cl, clerr, w1, w2, tmo, subCloseCalled, pubClosed, startedCh, user, userStopped, dropped, panicked>>)
-RHSpawn == /\ rh = "spawn" /\ rh' = "done" /\ loop' = "recv" /\ hc' = "before_select" /\ run' = "wait_closing"
-           /\ U(<<srcQ, srcClosed, pump, pumpMsg, loopMsg, hm, runningWg, runningMu, handlersWg, ctxCancelled, closing, closedCh, closed, closedMu, cl, clerr, w1, w2, tmo, subCloseCalled, pubClosed, startedCh, stopFnSet, user, userStopped, dropped, panicked>>)
+               /\ U(<<srcQ, srcClosed, pump, pumpMsg, loop, loopMsg, hm, runningWg, runningMu, handlersWg, hc, run, ctxCancelled, closing, closedCh, closed, closedMu, cl, clerr, w1, w2, tmo, subCloseCalled, pubClosed, startedCh, user, userStopped, dropped, panicked, hlMu, stoppedCh>>)
+RHSpawn == /\ rh = "spawn" /\ rh' = "done" /\ loop' = "recv" /\ hc' = "before_select" /\ run' = "wait_closing" /\ hlMu' = None
+           /\ U(<<srcQ, srcClosed, pump, pumpMsg, loopMsg, hm, runningWg, runningMu, handlersWg, ctxCancelled, closing, closedCh, closed, closedMu, cl, clerr, w1, w2, tmo, subCloseCalled, pubClosed, startedCh, stopFnSet, user, userStopped, dropped, panicked, stoppedCh>>)
 
 \* ---- a user calling Stop() the moment Started() is closed (nil stopFn => panic)
 UserStop == /\ AllowStop /\ user = "wait_started" /\ startedCh
             /\ IF stopFnSet THEN ctxCancelled' = TRUE /\ srcClosed' = TRUE /\ userStopped' = TRUE /\ U(panicked)
-                            ELSE panicked' = TRUE /\ U(<<ctxCancelled, srcClosed, userStopped>>)
+                            ELSE panicked' = TRUE /\ U(<<ctxCancelled, srcClosed, userStopped, hlMu, stoppedCh>>)
             /\ user' = "done"
-            /\ U(<<srcQ, pump, pumpMsg, loop, loopMsg, hm, runningWg, runningMu, handlersWg, hc, run, closing, closedCh, closed, closedMu, cl, clerr, w1, w2, tmo, subCloseCalled, pubClosed, rh, startedCh, stopFnSet, dropped>>)
+            /\ U(<<srcQ, pump, pumpMsg, loop, loopMsg, hm, runningWg, runningMu, handlersWg, hc, run, closing, closedCh, closed, closedMu, cl, clerr, w1, w2, tmo, subCloseCalled, pubClosed, rh, startedCh, stopFnSet, dropped, hlMu, stoppedCh>>)
 UserSkip == /\ user = "wait_started" /\ user' = "done"
-            /\ U(<<srcQ, srcClosed, pump, pumpMsg, loop, loopMsg, hm, runningWg, runningMu, handlersWg, hc, run, ctxCancelled, closing, closedCh, closed, closedMu, cl, clerr, w1, w2, tmo, subCloseCalled, pubClosed, rh, startedCh, stopFnSet, userStopped, dropped, panicked>>)
+            /\ U(<<srcQ, srcClosed, pump, pumpMsg, loop, loopMsg, hm, runningWg, runningMu, handlersWg, hc, run, ctxCancelled, closing, closedCh, closed, closedMu, cl, clerr, w1, w2, tmo, subCloseCalled, pubClosed, rh, startedCh, stopFnSet, userStopped, dropped, panicked, hlMu, stoppedCh>>)
 
 \* ---- the user cancels the context given to Run: every handler's subscription ends
 RunCtxCancel == /\ AllowCtxCancel /\ rh = "done" /\ ~ctxCancelled /\ ctxCancelled' = TRUE /\ srcClosed' = TRUE /\ userStopped' = TRUE
-                /\ U(<<srcQ, pump, pumpMsg, loop, loopMsg, hm, runningWg, runningMu, handlersWg, hc, run, closing, closedCh, closed, closedMu, cl, clerr, w1, w2, tmo, subCloseCalled, pubClosed, rh, startedCh, stopFnSet, user, dropped, panicked>>)
+                /\ U(<<srcQ, pump, pumpMsg, loop, loopMsg, hm, runningWg, runningMu, handlersWg, hc, run, closing, closedCh, closed, closedMu, cl, clerr, w1, w2, tmo, subCloseCalled, pubClosed, rh, startedCh, stopFnSet, user, dropped, panicked, hlMu, stoppedCh>>)
 
 \* ---- subscriber decorator pump: recv from the source; send to the loop, or give the message
 \*      up when the decorator is closing / the subscription context is done
 PumpRecv == /\ pump = "recv"
             /\ \/ \E m \in srcQ : ~srcClosed /\ srcQ' = srcQ \ {m} /\ pumpMsg' = m /\ pump' = "send"
-               \/ srcClosed /\ pump' = "done" /\ U(<<srcQ, pumpMsg>>)
-            /\ U(<<srcClosed, loop, loopMsg, hm, runningWg, runningMu, handlersWg, hc, run, ctxCancelled, closing, closedCh, closed, closedMu, cl, clerr, w1, w2, tmo, subCloseCalled, pubClosed, rh, startedCh, stopFnSet, user, userStopped, dropped, panicked>>)
+               \/ srcClosed /\ pump' = "done" /\ U(<<srcQ, pumpMsg, hlMu, stoppedCh>>)
+            /\ U(<<srcClosed, loop, loopMsg, hm, runningWg, runningMu, handlersWg, hc, run, ctxCancelled, closing, closedCh, closed, closedMu, cl, clerr, w1, w2, tmo, subCloseCalled, pubClosed, rh, startedCh, stopFnSet, user, userStopped, dropped, panicked, hlMu, stoppedCh>>)
 PumpSend == /\ pump = "send" /\ loop = "recv" /\ loopMsg' = pumpMsg /\ loop' = "received" /\ pumpMsg' = None /\ pump' = "recv"
-            /\ U(<<srcQ, srcClosed, hm, runningWg, runningMu, handlersWg, hc, run, ctxCancelled, closing, closedCh, closed, closedMu, cl, clerr, w1, w2, tmo, subCloseCalled, pubClosed, rh, startedCh, stopFnSet, user, userStopped, dropped, panicked>>)
+            /\ U(<<srcQ, srcClosed, hm, runningWg, runningMu, handlersWg, hc, run, ctxCancelled, closing, closedCh, closed, closedMu, cl, clerr, w1, w2, tmo, subCloseCalled, pubClosed, rh, startedCh, stopFnSet, user, userStopped, dropped, panicked, hlMu, stoppedCh>>)
 PumpDrop == /\ pump = "send" /\ (ctxCancelled \/ subCloseCalled)
             /\ dropped' = dropped \cup {pumpMsg} /\ pumpMsg' = None /\ pump' = "recv"
-            /\ U(<<srcQ, srcClosed, loop, loopMsg, hm, runningWg, runningMu, handlersWg, hc, run, ctxCancelled, closing, closedCh, closed, closedMu, cl, clerr, w1, w2, tmo, subCloseCalled, pubClosed, rh, startedCh, stopFnSet, user, userStopped, panicked>>)
+            /\ U(<<srcQ, srcClosed, loop, loopMsg, hm, runningWg, runningMu, handlersWg, hc, run, ctxCancelled, closing, closedCh, closed, closedMu, cl, clerr, w1, w2, tmo, subCloseCalled, pubClosed, rh, startedCh, stopFnSet, user, userStopped, panicked, hlMu, stoppedCh>>)
 
 \* ---- handler loop
 LoopAdd == /\ loop = "received" /\ runningMu = None /\ runningWg' = runningWg + 1
            /\ hm' = [hm EXCEPT ![loopMsg] = "start"] /\ loopMsg' = None /\ loop' = "recv"
-           /\ U(<<srcQ, srcClosed, pump, pumpMsg, runningMu, handlersWg, hc, run, ctxCancelled, closing, closedCh, closed, closedMu, cl, clerr, w1, w2, tmo, subCloseCalled, pubClosed, rh, startedCh, stopFnSet, user, userStopped, dropped, panicked>>)
-LoopEnd == /\ loop = "recv" /\ pump = "done" /\ loop' = "done" /\ pubClosed' = TRUE /\ handlersWg' = handlersWg - 1
-           /\ U(<<srcQ, srcClosed, pump, pumpMsg, loopMsg, hm, runningWg, runningMu, hc, run, ctxCancelled, closing, closedCh, closed, closedMu, cl, clerr, w1, w2, tmo, subCloseCalled, rh, startedCh, stopFnSet, user, userStopped, dropped, panicked>>)
+           /\ U(<<srcQ, srcClosed, pump, pumpMsg, runningMu, handlersWg, hc, run, ctxCancelled, closing, closedCh, closed, closedMu, cl, clerr, w1, w2, tmo, subCloseCalled, pubClosed, rh, startedCh, stopFnSet, user, userStopped, dropped, panicked, hlMu, stoppedCh>>)
+LoopEnd == /\ loop = "recv" /\ pump = "done" /\ loop' = "unreg" /\ pubClosed' = TRUE /\ handlersWg' = handlersWg - 1
+           /\ MutUnregBeforeDone => hlMu = None          \* (defective order: the lock is needed before Done is reported)
+           /\ U(<<srcQ, srcClosed, pump, pumpMsg, loopMsg, hm, runningWg, runningMu, hc, run, ctxCancelled, closing, closedCh, closed, closedMu, cl, clerr, w1, w2, tmo, subCloseCalled, rh, startedCh, stopFnSet, user, userStopped, dropped, panicked, hlMu, stoppedCh>>)
+\* handlersLock.Lock(); delete(r.handlers, name); Unlock(); close(h.stopped)   -- no blocking operation in between
+LoopUnreg == /\ loop = "unreg" /\ hlMu = None /\ loop' = "done"
+             /\ stoppedCh' = ~(MutSkipStoppedWhenClosing /\ closing)
+             /\ U(<<srcQ, srcClosed, pump, pumpMsg, loopMsg, hm, runningWg, runningMu, handlersWg, hc, run, ctxCancelled, closing, closedCh, closed, closedMu, cl, clerr, w1, w2, tmo, subCloseCalled, pubClosed, rh, startedCh, stopFnSet, user, userStopped, dropped, panicked, hlMu>>)
 HMStep(m) == /\ hm[m] \in {"start", "handling"}
              /\ IF hm[m] = "start" THEN hm' = [hm EXCEPT ![m] = "handling"] /\ U(runningWg)
                 ELSE hm' = [hm EXCEPT ![m] = "done"] /\ runningWg' = runningWg - 1
-             /\ U(<<srcQ, srcClosed, pump, pumpMsg, loop, loopMsg, runningMu, handlersWg, hc, run, ctxCancelled, closing, closedCh, closed, closedMu, cl, clerr, w1, w2, tmo, subCloseCalled, pubClosed, rh, startedCh, stopFnSet, user, userStopped, dropped, panicked>>)
+             /\ U(<<srcQ, srcClosed, pump, pumpMsg, loop, loopMsg, runningMu, handlersWg, hc, run, ctxCancelled, closing, closedCh, closed, closedMu, cl, clerr, w1, w2, tmo, subCloseCalled, pubClosed, rh, startedCh, stopFnSet, user, userStopped, dropped, panicked, hlMu, stoppedCh>>)
 
 \* ---- handleClose: select { routersCloseCh: close subscriber ; ctx.Done: (repaired: close it too if the router is closing) } ; stopFn()
 HCSelect == /\ hc = "before_select"
             /\ \/ closing /\ hc' = "subclose" /\ subCloseCalled' = TRUE /\ srcClosed' = TRUE
                \/ ctxCancelled /\ (IF ~LegacyHandleClose /\ closing THEN hc' = "subclose" /\ subCloseCalled' = TRUE /\ srcClosed' = TRUE
-                                   ELSE hc' = "done" /\ U(<<subCloseCalled, srcClosed>>))
-            /\ U(<<srcQ, pump, pumpMsg, loop, loopMsg, hm, runningWg, runningMu, handlersWg, run, ctxCancelled, closing, closedCh, closed, closedMu, cl, clerr, w1, w2, tmo, pubClosed, rh, startedCh, stopFnSet, user, userStopped, dropped, panicked>>)
+                                   ELSE hc' = "done" /\ U(<<subCloseCalled, srcClosed, hlMu, stoppedCh>>))
+            /\ U(<<srcQ, pump, pumpMsg, loop, loopMsg, hm, runningWg, runningMu, handlersWg, run, ctxCancelled, closing, closedCh, closed, closedMu, cl, clerr, w1, w2, tmo, pubClosed, rh, startedCh, stopFnSet, user, userStopped, dropped, panicked, hlMu, stoppedCh>>)
 \* subscriber.Close() returns when the decorator's pump has finished; then stopFn()
 HCWaitPump == /\ hc = "subclose" /\ pump = "done" /\ hc' = "done" /\ ctxCancelled' = TRUE
-            /\ U(<<srcQ, srcClosed, pump, pumpMsg, loop, loopMsg, hm, runningWg, runningMu, handlersWg, run, closing, closedCh, closed, closedMu, cl, clerr, w1, w2, tmo, subCloseCalled, pubClosed, rh, startedCh, stopFnSet, user, userStopped, dropped, panicked>>)
+            /\ U(<<srcQ, srcClosed, pump, pumpMsg, loop, loopMsg, hm, runningWg, runningMu, handlersWg, run, closing, closedCh, closed, closedMu, cl, clerr, w1, w2, tmo, subCloseCalled, pubClosed, rh, startedCh, stopFnSet, user, userStopped, dropped, panicked, hlMu, stoppedCh>>)
 
 \* ---- Run: <-closingInProgressCh ; cancel() ; <-closedCh ; return nil
 RunCancel == /\ run = "wait_closing" /\ closing /\ run' = "wait_closed" /\ ctxCancelled' = TRUE /\ srcClosed' = TRUE
-             /\ U(<<srcQ, pump, pumpMsg, loop, loopMsg, hm, runningWg, runningMu, handlersWg, hc, closing, closedCh, closed, closedMu, cl, clerr, w1, w2, tmo, subCloseCalled, pubClosed, rh, startedCh, stopFnSet, user, userStopped, dropped, panicked>>)
+             /\ U(<<srcQ, pump, pumpMsg, loop, loopMsg, hm, runningWg, runningMu, handlersWg, hc, closing, closedCh, closed, closedMu, cl, clerr, w1, w2, tmo, subCloseCalled, pubClosed, rh, startedCh, stopFnSet, user, userStopped, dropped, panicked, hlMu, stoppedCh>>)
 RunReturn == /\ run = "wait_closed" /\ closedCh /\ run' = "returned"
-             /\ U(<<srcQ, srcClosed, pump, pumpMsg, loop, loopMsg, hm, runningWg, runningMu, handlersWg, hc, ctxCancelled, closing, closedCh, closed, closedMu, cl, clerr, w1, w2, tmo, subCloseCalled, pubClosed, rh, startedCh, stopFnSet, user, userStopped, dropped, panicked>>)
+             /\ U(<<srcQ, srcClosed, pump, pumpMsg, loop, loopMsg, hm, runningWg, runningMu, handlersWg, hc, ctxCancelled, closing, closedCh, closed, closedMu, cl, clerr, w1, w2, tmo, subCloseCalled, pubClosed, rh, startedCh, stopFnSet, user, userStopped, dropped, panicked, hlMu, stoppedCh>>)
 
 \* ---- Close callers (after the router runs): closedLock; closed? ; close(closingInProgressCh) ; waitForHandlers ; close(closedCh)
-ClStart(c) == /\ cl[c] = "idle" /\ rh = "done" /\ closedMu = None
-              /\ c = Watcher => handlersWg = 0
-              /\ IF closed THEN cl' = [cl EXCEPT ![c] = IF LegacySecondCloseNil THEN "returned" ELSE "rewait"] /\ U(<<closedMu, closed, closing, w1, w2>>)
-                 ELSE /\ closedMu' = c /\ closed' = TRUE /\ closing' = TRUE /\ cl' = [cl EXCEPT ![c] = "waiting"]
+ClLock(c) == /\ cl[c] = "idle" /\ rh # "lock" /\ closedMu = None
+             /\ c = Watcher => handlersWg = 0
+             /\ closedMu' = c /\ cl' = [cl EXCEPT ![c] = "locked"]
+             /\ U(<<srcQ, srcClosed, pump, pumpMsg, loop, loopMsg, hm, runningWg, runningMu, handlersWg, hc, run, ctxCancelled, closing, closedCh, closed, clerr, w1, w2, tmo, subCloseCalled, pubClosed, rh, startedCh, stopFnSet, user, userStopped, dropped, panicked, hlMu, stoppedCh>>)
+ClStart(c) == /\ cl[c] = "locked" /\ hlMu = None
+              /\ IF closed
+                 THEN IF LegacySecondCloseNil
+                      THEN cl' = [cl EXCEPT ![c] = "returned"] /\ closedMu' = None /\ U(<<hlMu, closed, closing, w1, w2>>)
+                      ELSE cl' = [cl EXCEPT ![c] = "rewait"] /\ hlMu' = c /\ U(<<closedMu, closed, closing, w1, w2>>)
+                 ELSE /\ hlMu' = c /\ closed' = TRUE /\ closing' = TRUE /\ cl' = [cl EXCEPT ![c] = "waiting"] /\ U(closedMu)
                       /\ w1' = "wait" /\ w2' = IF LegacyConcurrentWaits THEN "lock" ELSE "off"
-              /\ U(<<srcQ, srcClosed, pump, pumpMsg, loop, loopMsg, hm, runningWg, runningMu, handlersWg, hc, run, ctxCancelled, closedCh, clerr, tmo, subCloseCalled, pubClosed, rh, startedCh, stopFnSet, user, userStopped, dropped, panicked>>)
+              /\ U(<<srcQ, srcClosed, pump, pumpMsg, loop, loopMsg, hm, runningWg, runningMu, handlersWg, hc, run, ctxCancelled, closedCh, clerr, tmo, subCloseCalled, pubClosed, rh, startedCh, stopFnSet, user, userStopped, dropped, panicked, stoppedCh>>)
 W1Done == /\ w1 = "wait" /\ handlersWg = 0 /\ w1' = "done" /\ w2' = IF LegacyConcurrentWaits THEN w2 ELSE "lock"
-          /\ U(<<srcQ, srcClosed, pump, pumpMsg, loop, loopMsg, hm, runningWg, runningMu, handlersWg, hc, run, ctxCancelled, closing, closedCh, closed, closedMu, cl, clerr, tmo, subCloseCalled, pubClosed, rh, startedCh, stopFnSet, user, userStopped, dropped, panicked>>)
+          /\ U(<<srcQ, srcClosed, pump, pumpMsg, loop, loopMsg, hm, runningWg, runningMu, handlersWg, hc, run, ctxCancelled, closing, closedCh, closed, closedMu, cl, clerr, tmo, subCloseCalled, pubClosed, rh, startedCh, stopFnSet, user, userStopped, dropped, panicked, hlMu, stoppedCh>>)
 W2Lock == /\ w2 = "lock" /\ runningMu = None /\ runningMu' = "w2" /\ w2' = "wait"
-          /\ U(<<srcQ, srcClosed, pump, pumpMsg, loop, loopMsg, hm, runningWg, handlersWg, hc, run, ctxCancelled, closing, closedCh, closed, closedMu, cl, clerr, w1, tmo, subCloseCalled, pubClosed, rh, startedCh, stopFnSet, user, userStopped, dropped, panicked>>)
+          /\ U(<<srcQ, srcClosed, pump, pumpMsg, loop, loopMsg, hm, runningWg, handlersWg, hc, run, ctxCancelled, closing, closedCh, closed, closedMu, cl, clerr, w1, tmo, subCloseCalled, pubClosed, rh, startedCh, stopFnSet, user, userStopped, dropped, panicked, hlMu, stoppedCh>>)
 W2Done == /\ w2 = "wait" /\ runningWg = 0 /\ runningMu' = None /\ w2' = "done"
-          /\ U(<<srcQ, srcClosed, pump, pumpMsg, loop, loopMsg, hm, runningWg, handlersWg, hc, run, ctxCancelled, closing, closedCh, closed, closedMu, cl, clerr, w1, tmo, subCloseCalled, pubClosed, rh, startedCh, stopFnSet, user, userStopped, dropped, panicked>>)
+          /\ U(<<srcQ, srcClosed, pump, pumpMsg, loop, loopMsg, hm, runningWg, handlersWg, hc, run, ctxCancelled, closing, closedCh, closed, closedMu, cl, clerr, w1, tmo, subCloseCalled, pubClosed, rh, startedCh, stopFnSet, user, userStopped, dropped, panicked, hlMu, stoppedCh>>)
 \* CloseTimeout fires while the waits are incomplete
 Timeout == /\ AllowTimeout /\ ~tmo /\ \E c \in Closers : cl[c] = "waiting" /\ ~(w1 = "done" /\ w2 = "done") /\ tmo' = TRUE
-           /\ U(<<srcQ, srcClosed, pump, pumpMsg, loop, loopMsg, hm, runningWg, runningMu, handlersWg, hc, run, ctxCancelled, closing, closedCh, closed, closedMu, cl, clerr, w1, w2, subCloseCalled, pubClosed, rh, startedCh, stopFnSet, user, userStopped, dropped, panicked>>)
-ClReturn(c) == /\ cl[c] = "waiting" /\ ((w1 = "done" /\ w2 = "done") \/ tmo) /\ closedCh' = TRUE /\ closedMu' = None
+           /\ U(<<srcQ, srcClosed, pump, pumpMsg, loop, loopMsg, hm, runningWg, runningMu, handlersWg, hc, run, ctxCancelled, closing, closedCh, closed, closedMu, cl, clerr, w1, w2, subCloseCalled, pubClosed, rh, startedCh, stopFnSet, user, userStopped, dropped, panicked, hlMu, stoppedCh>>)
+ClReturn(c) == /\ cl[c] = "waiting" /\ ((w1 = "done" /\ w2 = "done") \/ tmo) /\ closedCh' = TRUE /\ closedMu' = None /\ hlMu' = None
                /\ cl' = [cl EXCEPT ![c] = "returned"] /\ clerr' = [clerr EXCEPT ![c] = ~(w1 = "done" /\ w2 = "done")]
-               /\ U(<<srcQ, srcClosed, pump, pumpMsg, loop, loopMsg, hm, runningWg, runningMu, handlersWg, hc, run, ctxCancelled, closing, closed, w1, w2, tmo, subCloseCalled, pubClosed, rh, startedCh, stopFnSet, user, userStopped, dropped, panicked>>)
+               /\ U(<<srcQ, srcClosed, pump, pumpMsg, loop, loopMsg, hm, runningWg, runningMu, handlersWg, hc, run, ctxCancelled, closing, closed, w1, w2, tmo, subCloseCalled, pubClosed, rh, startedCh, stopFnSet, user, userStopped, dropped, panicked, stoppedCh>>)
 
 \* a Close call on an already closed router waits for the handlers again (with the time-out)
 ClReturnAgain(c) == /\ cl[c] = "rewait"
                     /\ \/ (w1 = "done" /\ w2 = "done") /\ clerr' = clerr
                        \/ (AllowTimeout /\ ~(w1 = "done" /\ w2 = "done")) /\ clerr' = [clerr EXCEPT ![c] = TRUE]
-                    /\ cl' = [cl EXCEPT ![c] = "returned"]
-                    /\ U(<<srcQ, srcClosed, pump, pumpMsg, loop, loopMsg, hm, runningWg, runningMu, handlersWg, hc, run, ctxCancelled, closing, closedCh, closed, closedMu, w1, w2, tmo, subCloseCalled, pubClosed, rh, startedCh, stopFnSet, user, userStopped, dropped, panicked>>)
+                    /\ cl' = [cl EXCEPT ![c] = "returned"] /\ closedMu' = None /\ hlMu' = None
+                    /\ U(<<srcQ, srcClosed, pump, pumpMsg, loop, loopMsg, hm, runningWg, runningMu, handlersWg, hc, run, ctxCancelled, closing, closedCh, closed, w1, w2, tmo, subCloseCalled, pubClosed, rh, startedCh, stopFnSet, user, userStopped, dropped, panicked, stoppedCh>>)
 
-Next == RunCtxCancel \/ RHSubscribe \/ RHAfterStarted \/ RHSpawn \/ UserStop \/ UserSkip \/ PumpRecv \/ PumpSend \/ PumpDrop \/ LoopAdd \/ LoopEnd
+Next == RunCtxCancel \/ RHLock \/ RHSubscribe \/ RHAfterStarted \/ RHSpawn \/ UserStop \/ UserSkip \/ PumpRecv \/ PumpSend \/ PumpDrop \/ LoopAdd \/ LoopEnd \/ LoopUnreg
         \/ (\E m \in Msgs : HMStep(m)) \/ HCSelect \/ HCWaitPump \/ RunCancel \/ RunReturn
-        \/ (\E c \in Closers : ClStart(c) \/ ClReturn(c) \/ ClReturnAgain(c)) \/ W1Done \/ W2Lock \/ W2Done \/ Timeout
+        \/ (\E c \in Closers : ClLock(c) \/ ClStart(c) \/ ClReturn(c) \/ ClReturnAgain(c)) \/ W1Done \/ W2Lock \/ W2Done \/ Timeout
 Spec == Init /\ [][Next]_vars
 FairSpec == Spec /\ WF_vars(Next)
 
@@ -163,4 +192,8 @@ AllReturn == <>(\A c \in Closers \ {Watcher} : cl[c] = "returned")
 \* C10: when the last handler ended (user Stop) or the Run context was cancelled the router closes itself and Run returns
 SelfClose == (userStopped /\ Watcher \in Closers) ~> (run = "returned" /\ closed)
 RunReturns == <>(run = "returned")
+\* C10: Stopped() of a handler whose loop has ended is closed (eventually: the goroutine needs handlersLock for a moment)
+StoppedCloses == (loop = "unreg") ~> stoppedCh
+\* no dead-lock: some step is possible while a Close call is pending
+NoStuck == ~(~ENABLED Next /\ \E c \in Closers : cl[c] \in {"locked", "waiting", "rewait"})
 =============================================================================
